@@ -117,6 +117,154 @@ BODIES["s-list-jsonld"] = s_list_jsonld
 BODIES["s-list-turtle"] = s_list_turtle
 
 
+# ---- engine R: the numeric-shorthand guards of Literal._literal_n3 -------------------------------------------------
+# CrossHair's model of `re` treats `$` as end of string; CPython also lets it match before a final newline.  The K
+# obligations above therefore cannot see a guard that is too permissive only in that respect; this obligation decides
+# the guards' languages with z3 directly, from the pattern objects and the way the live source applies them.
+TTL_INTEGER = r"[+-]?[0-9]+"
+TTL_DECIMAL = r"[+-]?[0-9]*\.[0-9]+"
+
+
+def _shorthand_guards():
+    """[(datatype name, pattern global name, method)] read from the current source of Literal._literal_n3"""
+    import ast
+    import inspect
+    import textwrap
+    import rdflib.term as term
+    tree = ast.parse(textwrap.dedent(inspect.getsource(term.Literal._literal_n3)))
+    out = []
+
+    def dt_of(test):
+        # self.datatype == NAME
+        if (isinstance(test, ast.Compare) and len(test.ops) == 1 and isinstance(test.ops[0], ast.Eq)
+                and isinstance(test.comparators[0], ast.Name)):
+            return test.comparators[0].id
+        return None
+
+    def visit(node, ctx):
+        if isinstance(node, ast.If):
+            d = dt_of(node.test)
+            if d is not None:
+                visit(node.test, ctx)
+                for b in node.body:
+                    visit(b, d)
+                for b in node.orelse:
+                    visit(b, "else" if not (len(node.orelse) == 1 and isinstance(b, ast.If) and dt_of(b.test)) else ctx)
+                return
+        if (isinstance(node, ast.Call) and isinstance(node.func, ast.Attribute) and isinstance(node.func.value, ast.Name)
+                and isinstance(getattr(term, node.func.value.id, None), type(term._lang_tag_regex))):
+            out.append((ctx, node.func.value.id, node.func.attr))
+        for ch in ast.iter_child_nodes(node):
+            visit(ch, ctx)
+
+    visit(tree, None)
+    return out
+
+
+def _guard_language(guard):
+    from .. import rx
+    import rdflib.term as term
+    ctx, name, method = guard
+    if method not in ("match", "fullmatch"):
+        raise rx.Unsupported("guard %s applied with .%s()" % (name, method))
+    return rx.to_z3(getattr(term, name), strict_end=method == "fullmatch")
+
+
+def _guard_target(ctx):
+    import rdflib.term as term
+    from rdflib.namespace import XSD
+    if ctx == "else":
+        # the branch left over for the plain types not named in an explicit test
+        return "integer"
+    val = getattr(term, ctx, None) if ctx else None
+    return {XSD.integer: "integer", XSD.decimal: "decimal"}.get(val)
+
+
+def run_custom(ob):
+    from .. import rx
+    import time
+    import z3
+    t0 = time.time()
+    out = {"paths": 0, "queries": 0, "solver_s": 0.0, "cpu_s": 0.0, "cex": None, "detail": ""}
+    try:
+        guards = _shorthand_guards()
+        todo = []
+        for g in guards:
+            tgt = _guard_target(g[0])
+            if tgt is None:
+                raise rx.Unsupported("shorthand guard %s.%s() in a branch that is not understood (%r)" % (g[1], g[2], g[0]))
+            todo.append((g, tgt, _guard_language(g)))
+    except rx.Unsupported as e:
+        out.update(verdict="inconclusive", detail=str(e))
+        return out
+    out["detail"] = "guards: %s" % ", ".join("%s.%s() for %s" % (g[1], g[2], t) for g, t, _ in todo) if todo else "no regex guard in _literal_n3"
+    verdict = "confirmed"
+    for g, tgt, lang in todo:
+        res, w, dt = rx.included(lang, rx.to_z3(TTL_INTEGER if tgt == "integer" else TTL_DECIMAL, strict_end=True), timeout_ms=int(ob["budget"] * 1000))
+        out["queries"] += 1
+        out["paths"] += 1
+        out["solver_s"] = round(out["solver_s"] + dt, 3)
+        if res == "sat":
+            w = rx.unescape_z3(w)
+            cex = {"witness": w, "dt": tgt}
+            r = replay_custom(ob, cex)
+            out["cex"] = cex
+            out["verdict"] = "refuted"
+            out["replay"] = {"falsy": "str", "reason": r} if r else None
+            out["cpu_s"] = round(time.time() - t0, 3)
+            return out
+        if res != "unsat":
+            verdict = "inconclusive"
+            out["detail"] += "; solver answered %s for %s" % (res, g[1])
+    out["verdict"] = verdict
+    # reachability twin: each guard language is non-empty (an empty guard would pass trivially; the K obligations
+    # separately require that the shorthand is actually produced for canonical forms)
+    twin_ok = True
+    for g, tgt, lang in todo:
+        s = z3.String("s")
+        sol = z3.Solver()
+        sol.add(z3.InRe(s, lang))
+        out["queries"] += 1
+        twin_ok = twin_ok and sol.check() == z3.sat
+    out["twin"] = {"verdict": "refuted" if twin_ok else "confirmed", "replayed_ok": twin_ok, "cex": None}
+    out["cpu_s"] = round(time.time() - t0, 3)
+    return out
+
+
+def replay_custom(ob, cex):
+    """the witness passes the live guard but is not a Turtle INTEGER/DECIMAL token: write it and read it back"""
+    from rdflib import Graph, Literal, URIRef
+    from rdflib.namespace import XSD
+    w, tgt = cex["witness"], cex["dt"]
+    dt = XSD.integer if tgt == "integer" else XSD.decimal
+    lit = Literal(w, datatype=dt, normalize=False)
+    if lit.value is None:
+        return None  # no value: the shorthand branch is not entered for this text
+    import re
+    token = lit._literal_n3(use_plain=True)
+    if token[:1] == '"' or re.fullmatch(TTL_INTEGER if tgt == "integer" else TTL_DECIMAL, token):
+        return None  # quoted with its datatype, or a legal token: the guard did its job for this text
+    g = Graph()
+    g.add((URIRef("urn:s"), URIRef("urn:p"), lit))
+    import rdflib
+    saved = rdflib.NORMALIZE_LITERALS
+    rdflib.NORMALIZE_LITERALS = False  # compare lexical forms as written
+    try:
+        for fmt in ("turtle", "longturtle", "n3"):
+            try:
+                text = g.serialize(format=fmt)
+                h = Graph().parse(data=text, format="turtle" if fmt == "longturtle" else fmt)
+            except Exception as e:
+                return "the xsd:%s literal %r is written bare as %r, not a Turtle token; the %s output does not parse (%s)" % (
+                    tgt, w, token, fmt, type(e).__name__)
+            if set(h) != set(g):
+                return "the xsd:%s literal %r is written bare as %r, not a Turtle token; the %s output reads back as %r" % (
+                    tgt, w, token, fmt, list(h.objects()))
+    finally:
+        rdflib.NORMALIZE_LITERALS = saved
+    return None
+
+
 def obligations(tier, seed):
     n = 3 if tier == "quick" else 4
     big = 400 if tier == "quick" else 3600
@@ -147,6 +295,8 @@ def obligations(tier, seed):
     for dt in ("integer", "decimal"):
         obs.append(dict(oid="K/plain-num-any-text/%s" % dt, family="k-plain-num", desc={"dt": dt, "any_text": True}, sig=[("s", "s")],
                         pre=["len(s) <= %d" % (3 if tier == "quick" else 4)], budget=big))
+    obs.append(dict(oid="R/shorthand-guards<=Turtle-numeric-tokens", family="regex-inclusion", runner="custom", desc={"name": "shorthand-guards"},
+                    sig=[], budget=120))
     return obs
 
 
@@ -160,6 +310,8 @@ def bounds(tier):
             "s-list-jsonld / s-list-turtle": "engine S on the list-detection code: rdf:first/rdf:rest chains of 2-3 (thorough 1-4) concrete cells with "
                                              "symbolic members (falsy, duplicates) and 6 defects by shape; jsonld.Converter.to_collection returns exactly the "
                                              "members or declines, never a list for a malformed chain; Turtle/LongTurtle isValidList never accepts a malformed chain",
+            "regex-inclusion": "unbounded string length: every text accepted by a regex guard of Literal._literal_n3 (as applied there: match or "
+                               "fullmatch, `$` tolerating a final newline under match) is a Turtle INTEGER resp. DECIMAL token",
             "outside": "whole documents, blank-node inlining, subject ordering, qname splitting, RDF/XML, longer strings, double/float shorthand"}
 
 
